@@ -1,6 +1,7 @@
 package main
 
 import (
+	"strconv"
 	"fmt"
 	"go/constant"
 	"go/types"
@@ -24,6 +25,7 @@ type SpecEnv struct {
 	lookup func(name string) (Val, bool)
 	st     *State
 	old    *State
+	pre    *State // state at the entry of the loop whose invariant is being evaluated (for pre(E))
 	fr     *Frame // for calling Go functions from specs (optional)
 	depth  int
 }
@@ -201,7 +203,7 @@ func (s *Session) evalSpec(se *SpecEnv, e SExpr) Val {
 			var ps []string
 			for _, pe := range x.Pats {
 				pv := s.materialize(s.evalSpec(inner, pe))
-				ps = append(ps, pv.L[0].S)
+				ps = append(ps, patTerm(pv.L[0].S))
 			}
 			return boolVal(T{fmt.Sprintf("(%s (%s) (! %s :pattern (%s)))", q, strings.Join(binders, " "), body.S, strings.Join(ps, " ")), SBool})
 		}
@@ -505,7 +507,7 @@ func (s *Session) indexVal(se *SpecEnv, base, idx Val) Val {
 	if base.Typ != nil {
 		switch ut := base.Typ.Underlying().(type) {
 		case *types.Slice:
-			loc := &Loc{Kind: "A", TypeKey: typeKey(ut.Elem()), Ref: base.L[0], Idx: []T{Add(base.L[1], idx.T0())}, Typ: ut.Elem()}
+			loc := &Loc{Kind: "A", TypeKey: typeKey(ut.Elem()), Ref: base.L[0], Idx: []T{s.sidx(base.L[1], idx.T0())}, Typ: ut.Elem()}
 			if base.L[1].S == "0" {
 				loc.Idx = []T{idx.T0()}
 			}
@@ -594,7 +596,7 @@ func (s *Session) evalAddr(se *SpecEnv, e SExpr) (*Loc, error) {
 		base := s.evalSpec(se, x.X)
 		idx := s.evalSpec(se, x.I)
 		if sl, ok := base.Typ.Underlying().(*types.Slice); ok {
-			return &Loc{Kind: "A", TypeKey: typeKey(sl.Elem()), Ref: base.L[0], Idx: []T{Add(base.L[1], idx.T0())}, Typ: sl.Elem()}, nil
+			return &Loc{Kind: "A", TypeKey: typeKey(sl.Elem()), Ref: base.L[0], Idx: []T{s.sidx(base.L[1], idx.T0())}, Typ: sl.Elem()}, nil
 		}
 		return nil, fmt.Errorf("address of index into %v", base.Typ)
 	case *SIdent:
@@ -619,6 +621,13 @@ func (s *Session) evalCall(se *SpecEnv, x *SCall) Val {
 		case "old":
 			n := *se
 			n.st = se.old
+			return s.evalSpec(&n, x.Args[0])
+		case "pre": // pre(E) in a loop invariant: E in the state in which the loop was entered
+			if se.pre == nil {
+				specFail("pre() outside a loop invariant")
+			}
+			n := *se
+			n.st = se.pre
 			return s.evalSpec(&n, x.Args[0])
 		case "len":
 			v := s.evalSpec(se, x.Args[0])
@@ -741,12 +750,27 @@ func (s *Session) evalCall(se *SpecEnv, x *SCall) Val {
 		case "last": // last("F"): ghost clock value at the most recent call of event function F (0 = never)
 			name := x.Args[0].(*SStr).V
 			return untypedInt(Select(s.ghostGet(se.st, "evlast"), s.strLit(name)))
+		case "count": // count("F"): number of calls of event function F since the function under proof was entered
+			name := x.Args[0].(*SStr).V
+			return untypedInt(Select(s.ghostGet(se.st, "evcount"), s.strLit(name)))
 		case "lastint": // lastint("F"): integer result of the most recent call of event function F
 			name := x.Args[0].(*SStr).V
 			return untypedInt(Select(s.ghostGet(se.st, "evres"), s.strLit(name)))
 		case "callres": // callres("Name", k): value returned by the k-th call (source order) of Name in this function
 			name := x.Args[0].(*SStr).V
 			k := x.Args[1].(*SNum).V
+			if len(x.Args) == 3 {
+				// callres("Name", k, i): i-th component of a tuple result
+				v, ok := se.fr.callResults[name+"#"+k]
+				if !ok {
+					specFail("callres(%s,%s): no such call executed yet", name, k)
+				}
+				i, _ := strconv.Atoi(x.Args[2].(*SNum).V)
+				if i >= len(v.Tup) {
+					specFail("callres(%s,%s,%d): not a tuple of that size", name, k, i)
+				}
+				return v.Tup[i]
+			}
 			if se.fr == nil || se.fr.callResults == nil {
 				specFail("callres(%s,%s): no such call executed yet", name, k)
 			}
@@ -770,6 +794,26 @@ func (s *Session) evalCall(se *SpecEnv, x *SCall) Val {
 			sa := s.uf("bytes2str", SInt, Select(h, a.L[0]), a.L[1], a.L[2])
 			sb := s.uf("bytes2str", SInt, Select(h, b.L[0]), b.L[1], b.L[2])
 			return untypedInt(s.uf("keycmp", SInt, sa, sb))
+		case "keyord": // keyord(b): position of a []byte / string key in the total order of keys (a real; "" is least)
+			v := s.evalSpec(se, x.Args[0])
+			var h T
+			if len(v.L) == 3 {
+				hp := s.heapGet(se.st, heapName("A", "byte", ""), arrSort(arrSort(SInt)))
+				h = s.uf("bytes2str", SInt, Select(hp, v.L[0]), v.L[1], v.L[2])
+			} else {
+				h = v.T0()
+			}
+			return Val{Typ: types.Typ[types.Float64], L: []T{s.uf("keyord", "Real", h)}}
+		case "held", "rheld": // held(x.mu): the lock is statically held exclusively at this point; rheld: at least shared
+			loc, err := s.evalAddr(se, x.Args[0])
+			if err != nil {
+				specFail("held(): %v", err)
+			}
+			id := loc.Kind + ":" + loc.TypeKey + ":" + loc.Path
+			if x.Fun == "rheld" {
+				return boolVal(B(se.st.Locks[id] || se.st.Locks[id+":r"]))
+			}
+			return boolVal(B(se.st.Locks[id]))
 		case "allocated": // allocated(p): reference p denotes an object that exists in this state (or nil)
 			v := s.materialize(s.evalSpec(se, x.Args[0]))
 			return boolVal(And(Ge(v.L[0], I(0)), Le(v.L[0], se.st.Top)))
@@ -842,6 +886,21 @@ func (s *Session) evalCall(se *SpecEnv, x *SCall) Val {
 				args = append(args, intLeaves(s.materialize(s.evalSpec(se, a)).L)...)
 			}
 			return untypedInt(s.uf("spec:"+name, SInt, args...))
+		case "ufptr": // ufptr("name", T, args...): uninterpreted function whose value is a *T (e.g. an explicit Skolem witness)
+			name := x.Args[0].(*SStr).V
+			var tn string
+			switch a := x.Args[1].(type) {
+			case *SIdent:
+				tn = a.Name
+			case *SSel:
+				tn = a.X.(*SIdent).Name + "." + a.Name
+			}
+			tt := s.resolveType(se.pkg, tn)
+			var args []T
+			for _, a := range x.Args[2:] {
+				args = append(args, intLeaves(s.materialize(s.evalSpec(se, a)).L)...)
+			}
+			return scalar(types.NewPointer(tt), s.uf("spec:"+name, SInt, args...))
 		case "ufb":
 			name := x.Args[0].(*SStr).V
 			var args []T
@@ -927,7 +986,28 @@ func (s *Session) callPure(se *SpecEnv, pf *PureFn, argEs []SExpr) Val {
 	if n.pkg == nil {
 		n.pkg = se.pkg
 	}
+	if pf.Opaque && s.noDefine == 0 {
+		f := s.evalBool(n, pf.Body)
+		if len(f.S) < 200 {
+			return boolVal(f)
+		}
+		if s.opaqueAtoms == nil {
+			s.opaqueAtoms = map[string]T{}
+		}
+		if a, ok := s.opaqueAtoms[f.S]; ok {
+			return boolVal(a)
+		}
+		a := s.fresh("opq_"+pf.Name, SBool)
+		s.opaqueAtoms[f.S] = a
+		s.opaqueDefs = append(s.opaqueDefs, opaqueDef{pos: len(s.asserts), text: "(assert (= " + a.S + " " + f.S + "))"})
+		return boolVal(a)
+	}
 	return s.evalSpec(n, pf.Body)
+}
+
+type opaqueDef struct {
+	pos  int
+	text string
 }
 
 // callGoPure runs a real Go function of /repo symbolically on a scratch copy of the state and
@@ -951,4 +1031,98 @@ func (s *Session) callGoPure(se *SpecEnv, fn *ssa.Function, args []Val) Val {
 	}
 	s.inlined[fn.String()] = true
 	return packResults(fn.Signature.Results(), res)
+}
+
+// patTerm: a trigger must be a plain term; for a compound boolean such as in(m,k) = (and (not (= m 0)) (select ..))
+// the first select/application conjunct is used.
+func patTerm(t string) string {
+	t = stripIte(t)
+	for strings.HasPrefix(t, "(and ") || strings.HasPrefix(t, "(not ") {
+		inner := t[5 : len(t)-1]
+		parts := splitSexp(inner)
+		pick := ""
+		for _, p := range parts {
+			if strings.HasPrefix(p, "(select ") {
+				pick = p
+				break
+			}
+		}
+		if pick == "" {
+			for _, p := range parts {
+				if strings.HasPrefix(p, "(") && !strings.HasPrefix(p, "(not ") && !strings.HasPrefix(p, "(= ") {
+					pick = p
+					break
+				}
+			}
+		}
+		if pick == "" {
+			return t
+		}
+		t = pick
+	}
+	return t
+}
+
+func splitSexp(s string) []string {
+	var out []string
+	depth, start := 0, -1
+	inBar := false
+	for i := 0; i < len(s); i++ {
+		c := s[i]
+		if c == '|' {
+			inBar = !inBar
+			if start < 0 {
+				start = i
+			}
+			continue
+		}
+		if inBar {
+			continue
+		}
+		switch c {
+		case '(':
+			if start < 0 {
+				start = i
+			}
+			depth++
+		case ')':
+			depth--
+			if depth == 0 && start >= 0 {
+				out = append(out, s[start:i+1])
+				start = -1
+			}
+		case ' ':
+			if depth == 0 && start >= 0 {
+				out = append(out, s[start:i])
+				start = -1
+			}
+		default:
+			if start < 0 {
+				start = i
+			}
+		}
+	}
+	if start >= 0 {
+		out = append(out, s[start:])
+	}
+	return out
+}
+
+// stripIte replaces every (ite c a b) inside a trigger term by its then-branch a (triggers must not contain
+// connectives; a map lookup m[k] is (ite present (select ..) zero) and its natural trigger is the select).
+func stripIte(t string) string {
+	if !strings.Contains(t, "(ite ") {
+		return t
+	}
+	if !strings.HasPrefix(t, "(") {
+		return t
+	}
+	parts := splitSexp(t[1 : len(t)-1])
+	if len(parts) == 4 && parts[0] == "ite" {
+		return stripIte(parts[2])
+	}
+	for i := range parts {
+		parts[i] = stripIte(parts[i])
+	}
+	return "(" + strings.Join(parts, " ") + ")"
 }
